@@ -423,6 +423,18 @@ def s_rename(c):
     c.create()
 
 
+def s_renamedup(c):
+    """several recorded files with the same content vanish, one new file with that content appears, -dr"""
+    for n in ("dup1.bin", "dup 2.bin", "dup3.bin"):
+        c.write(n, "same")
+    c.create()
+    for n in ("dup1.bin", "dup 2.bin", "dup3.bin"):
+        c.rm(n)
+    c.write("merged.bin", "same")
+    c.create(opts=["-dr"])
+    c.create()
+
+
 def s_latenest(c):
     """histories that appear inside an already sealed tree, a failure inside one of them, repair"""
     c.create()
@@ -467,6 +479,7 @@ SCRIPTS = {
     "many": s_many,
     "rename": s_rename,
     "latenest": s_latenest,
+    "renamedup": s_renamedup,
     "tz": s_tz,
 }
 # ancestors that match a pattern the script uses (the literal last-removed file name is added per world)
@@ -474,6 +487,7 @@ SCRIPT_ANCESTORS = {
     "ignore": ["notes.txt", "B", "A/deep", "c.txt", "tmp", "E", "z/empty.bin"],
     "sf": ["x.bin", "A"],
     "missing": [],
+    "renamedup": ["q", "longer_name_here", "x/y/z", "d"],
 }
 
 
@@ -581,6 +595,7 @@ def worlds(tier):
             add(script, "deep", ni)
     add("many", "siblings", 1)
     add("tz", "names", 0)
+    add("renamedup", "flat", 0)  # kept apart: see the report on the current tree
     if thorough:
         add("seal", "big", 0)
     return out
@@ -700,7 +715,7 @@ def main():
                 desc = f"root at {os.path.relpath(c.access, c.vt)!r} given as {c.arg.replace(c.vt + os.sep, '')!r}" + (
                     f" from cwd {os.path.relpath(c.cwd, c.vt)!r}" if c.cwd else ""
                 ) + f", enumeration order {order}"
-                compare(run, cid, dims_of(loc, how, order), ref_res, got, desc, dict(inp0, location=loc, spelling=how, order=order, arg=c.arg, cwd=c.cwd))
+                compare(run, cid, dims_of(loc, how, order) + (":dr-duplicates" if script == "renamedup" else ""), ref_res, got, desc, dict(inp0, location=loc, spelling=how, order=order, arg=c.arg, cwd=c.cwd))
             # ---- copies of the finished reference tree
             want_copies = [(j, v) for j, v in enumerate(cs) if run.want(f"{wid}/copy/{v[0]}/{v[1]}/{v[2]}")]
             if want_copies:
